@@ -278,6 +278,20 @@ def generate(rng, tier):
         cases.append(("interp.histbits", [t, "2"]))
         cases.append(("interp.histtxbits", ["51", "52", t, "0", "2"]))
 
+    # 3f. the unlocking / locking boundary on the transaction route: the unlocking script leaves items on the alt stack, is not
+    #     push-only, ends inside an open conditional (built as a tree); the first locking opcode fails / succeeds / reads the alt stack
+    b_unlocks = ["57+6b", "57+58+6b+6b", "57+6b+58", "57+6b+6c+6b", "51+63+57+6b+68", "00+63+57+6b+67+58+6b+68+59", "57+6b+ab", "", "57",
+                 "To87,o107,o81,o99", "To87,o107,o0,o99,o88", "To81,o99,o87,o107", "To87,o107,c00"]
+    b_locks = ["93", "6c", "51", "6c+6c", "69", "75", "50", "63+51+68", "ac", "ab+6c", "6c+93", "6b", "68", "67+52+68", "52+6b+68+6c+6c", "0501", ""]
+    for bu in b_unlocks:
+        for bl in b_locks:
+            cases.append(("interp.txrun", [bu, bl, "0"]))
+            nb = len(bu.split("+")) if not bu.startswith("T") else len(bu.split(","))
+            for k in (nb, nb + 1):
+                cases.append(("interp.histtx", [bu, bl, str(k)]))
+    for bl in ["T_", "To93", "To108,o81", "Tc00"]:
+        cases.append(("interp.txrun", ["57+6b", bl, "0"])); cases.append(("interp.histtx", ["To87,o107", bl, "2"]))
+
     # 4. random programs, random byte strings
     nprog = 300 if tier == "quick" else 4000
     for i in range(nprog):
